@@ -295,6 +295,11 @@ pub fn install_panic_hook() {
     }));
 }
 
+/// Sets the thread's quiet-panics flag, returning the previous value.
+pub fn set_quiet_panics(quiet: bool) -> bool {
+    QUIET_PANICS.with(|q| std::mem::replace(&mut *q.borrow_mut(), quiet))
+}
+
 /// Runs `f`, turning a panic into `Err(PanicInfo)`. Panics are silent while guarded.
 pub fn guard<T>(f: impl FnOnce() -> T) -> Result<T, PanicInfo> {
     let prev = QUIET_PANICS.with(|q| std::mem::replace(&mut *q.borrow_mut(), true));
